@@ -62,3 +62,27 @@ Example C03_example :
   builtin_infix n_add (VNum dec_one) (VStr []) = Some AErr.
 Proof. vm_compute. repeat split. Qed.
 Print Assumptions C03_example.
+
+(* DIVISION IS CORRECTLY ROUNDED. [dec_div] is rust_decimal's division transcribed at the level of integers (and compared with
+   the crate mantissa-and-scale on every run). Whatever it returns - d, for operands a / b - lies within half a unit in the
+   last place of d of the exact quotient; and a quotient it reports as exact is the exact quotient. Both sides of d ~ a / b
+   are multiplied out to integers: d * b * 10^scale(a) against a * 10^scale(b) * 10^scale(d). *)
+From EE Require Import DivisionLemmas.
+Theorem C03_division_correctly_rounded : forall a b d, dmant a < two96 -> is_zero a = false ->
+  (dec_div a b = DOk d \/ dec_div a b = DRounded d) ->
+  near (dmant d * dmant b * pow10 (dscale a)) (dmant a * pow10 (dscale b) * pow10 (dscale d)) (dmant b * pow10 (dscale a)).
+Proof. intros a b d HA Hz H. exact (dec_div_sound a b d HA H Hz). Qed.
+Print Assumptions C03_division_correctly_rounded.
+
+Theorem C03_division_exact_when_reported : forall a b d, dec_div a b = DOk d -> is_zero a = false ->
+  dmant d * dmant b * pow10 (dscale a) = dmant a * pow10 (dscale b) * pow10 (dscale d).
+Proof. exact dec_div_exact. Qed.
+Print Assumptions C03_division_exact_when_reported.
+
+(* 0.39351062 / 10 = 0.0393510620 (scale 10: the crate's partial unscale leaves one trailing zero), 1 / 3, 2 / 0 *)
+Example C03_division_example :
+  dec_div (mkdec false 39351062 8) (mkdec false 10 0) = DOk (mkdec false 393510620 10) /\
+  dec_div (mkdec false 1 0) (mkdec false 3 0) = DRounded (mkdec false 3333333333333333333333333333 28) /\
+  dec_div (mkdec false 2 0) (mkdec false 0 0) = DDivZero.
+Proof. vm_compute. repeat split. Qed.
+Print Assumptions C03_division_example.
